@@ -41,6 +41,8 @@ class SchedRec:
         self.log: List[str] = []
         self.stack: List[Any] = []
         self.ids: Dict[int, int] = {}
+        self.early_children: set = set()        # modules analysed before the __init__ of a package above them
+        self.plain_unanalysed: set = set()      # (scope, target) of plain imports that met a module not analysed yet
 
     def mid(self, mod) -> int:
         return self.ids[id(mod)]
@@ -53,6 +55,13 @@ class SchedRec:
 
         def processModule(system, mod):
             i = rec.ids.get(id(mod))
+            par = mod.parent
+            while isinstance(par, model.Module):
+                if par.state is model.ProcessingState.UNPROCESSED:
+                    # a module analysed BEFORE the __init__ of a package above it (never Python's order)
+                    rec.early_children.add(origin(mod).split("@")[0])
+                    break
+                par = par.parent
             rec.log.append("start%s" % i)
             rec.stack.append(mod)
             try:
@@ -73,12 +82,31 @@ class SchedRec:
         self._ao = model.System.addObject
         self._rp = model.Documentable.reparent
         self.module_moved = False
+        self.module_displaced = False
+        from pydoctor import astbuilder
+        self._vi = astbuilder.ModuleVistor.visit_Import
+
+        def visit_Import(visitor, node):
+            # `import a.b`: does the statement meet a project module that has not been analysed yet?
+            if isinstance(visitor.builder.current, model.CanContainImportsDocumentable):
+                for al in node.names:
+                    parts = al.name.split(".")
+                    for k in range(1, len(parts) + 1):
+                        m = visitor.system.allobjects.get(".".join(parts[:k]))
+                        if isinstance(m, model.Module) and m.state is model.ProcessingState.UNPROCESSED:
+                            rec.plain_unanalysed.add((origin(visitor.builder.current).split("@")[0], al.name))
+            return rec._vi(visitor, node)
+        astbuilder.ModuleVistor.visit_Import = visit_Import
 
         self.moves: List[Tuple[str, str]] = []
 
         def reparent(obj, new_parent, new_name):
-            if isinstance(obj, model.Module):
+            if isinstance(obj, model.Module) or isinstance(obj.system.allobjects.get(new_parent.fullName() + "." + new_name), model.Module):
+                # (also an object that takes over the full name of a module, `from .X import X` in a package: the
+                # module is superseded and `pkg.X` stops denoting it — C07 hunter finding 2)
                 rec.module_moved = True
+                if not isinstance(obj, model.Module):
+                    rec.module_displaced = True
             rec.moves.append((origin(obj), new_parent.fullName()))
             return rec._rp(obj, new_parent, new_name)
         model.Documentable.reparent = reparent
@@ -99,6 +127,8 @@ class SchedRec:
         model.System.getProcessedModule = self._gp
         model.System.addObject = self._ao
         model.Documentable.reparent = self._rp
+        from pydoctor import astbuilder
+        astbuilder.ModuleVistor.visit_Import = self._vi
 
 
 def build(units: List[Unit], order: Optional[List[int]], rec: Optional[SchedRec] = None):
@@ -212,8 +242,9 @@ def real_corpus(quick: bool) -> List[Tuple[str, List[Path]]]:
     return out
 
 
-def build_real(paths: List[Path], rng, shuffle: bool):
-    """the real builder on real directories; the processing order is a depth-first order with shuffled siblings/roots"""
+def build_real(paths: List[Path], rng, shuffle: bool, names: Optional[List[str]] = None):
+    """the real builder on real directories; the processing order is a depth-first order with shuffled siblings/roots
+    (or the order given by `names`, module full names)"""
     from pydoctor import model
     s = model.System()
     s.options.verbosity = -9
@@ -242,8 +273,13 @@ def build_real(paths: List[Path], rng, shuffle: bool):
             for r in roots:
                 go(r)
             s.unprocessed_modules[:] = [mods[i] for i in order]
+        if names is not None:
+            byname = {m.fullName(): i for i, m in enumerate(mods)}
+            order = [byname[n] for n in names]
+            s.unprocessed_modules[:] = [mods[i] for i in order]
+        onames = [m.fullName() for m in (mods[i] for i in order)]
         b.buildModules()
-    return s, [m.fullName() for m in (mods[i] for i in order)]
+    return s, onames
 
 
 def import_cycle_real(system) -> bool:
@@ -268,7 +304,9 @@ def import_cycle_real(system) -> bool:
                     parts = pkg.split(".") if pkg else []
                     parts = parts[:len(parts) - (node.level - 1)] if node.level > 1 else parts
                     base = ".".join(parts + ([node.module] if node.module else []))
-                if base in mods:
+                if base in mods and not (q + ".").startswith(base + "."):
+                    # (a request for the module itself or a package above it is no cycle: Python has run that
+                    # __init__ before this module whatever was imported first)
                     es.add(base)
                 for a in node.names:
                     if base + "." + a.name in mods:
@@ -390,11 +428,31 @@ def moved_origins(system) -> set:
             if getattr(o, "_verif_orig", None) is not None and o._verif_orig != o.fullName() and " " not in o.name}
 
 
-def diff_sig(a: Dict[str, Any], b: Dict[str, Any], moved: set = frozenset()) -> Tuple[str, str]:
+def entered_before_package(units: List[Unit], log: List[str]) -> bool:
+    """was some sub-module entered before the package it belongs to? (Python never does that)"""
+    idx = {u.qname: i for i, u in enumerate(units)}
+    pos = {ev[5:]: n for n, ev in enumerate(log) if ev.startswith("start")}
+    for i, u in enumerate(units):
+        p = idx.get(u.parent) if u.parent else None
+        if p is not None and str(i) in pos and str(p) in pos and pos[str(i)] < pos[str(p)]:
+            return True
+    return False
+
+
+def diff_sig(a: Dict[str, Any], b: Dict[str, Any], moved: set = frozenset(), early: bool = False, displaced: bool = False) -> Tuple[str, str]:
+    """`early`: under exactly one of the two orders some sub-module was entered before its package;
+    `displaced`: a re-export moved an object onto the full name of a module (`from .X import X` in a package)"""
     ka, kb = set(a), set(b)
     if ka != kb:
         d = sorted(ka ^ kb)
         both = {**a, **b}
+        # (0) C07 hunter finding 1: the SAME objects documented below two different parents (a re-export that happens
+        # under one order and is dropped under the other), and only one of the orders entered a sub-module before its
+        # package (getProcessedModule does not process the packages above a module first)
+        only_a, only_b = sorted(ka - kb), sorted(kb - ka)
+        if early and only_a and len(only_a) == len(only_b) and all(k == only_a[0] or k.startswith(only_a[0] + ".") for k in only_a) \
+                and [only_b[0] + k[len(only_a[0]):] for k in only_a] == only_b:
+            return "reexport-dropped-when-submodule-entered-before-its-package", f"{only_a[0]} under one order, {only_b[0]} under the other"
         # (1) every extra object is an ATTRIBUTE of a class one of whose (documented) ancestors has a member of that
         # name: `meth = deco(Base.meth)` in a class body is a wrapped inherited method when the base is known while
         # the body is visited, a new attribute when it is not (known finding: base imported from the defining module
@@ -425,6 +483,10 @@ def diff_sig(a: Dict[str, Any], b: Dict[str, Any], moved: set = frozenset()) -> 
                         # a base that is unresolved in one order and a moved (re-exported) object in the other
                         pairs = [(x, y) for x, y in zip(a[k][f], b[k][f]) if x != y]
                         if pairs and all((x is None) != (y is None) and ((x or y) in moved) for x, y in pairs):
+                            if displaced:
+                                # C07 hunter finding 2: the base was moved onto the full name of its own defining
+                                # module (`from .X import X`); the old name `pkg.X.X` finds nothing afterwards
+                                return "base-moved-onto-the-name-of-its-module", f"{k}: bases {a[k][f]!r} vs {b[k][f]!r}"
                             return "moved-base-unresolved", f"{k}: bases {a[k][f]!r} vs {b[k][f]!r}"
                     if f == "mro" and a[k].get("bases") == b[k].get("bases") and a[k].get("mro_resolved") == b[k].get("mro_resolved") \
                             and a[k].get("mro_resolved") is not None:
@@ -436,6 +498,193 @@ def diff_sig(a: Dict[str, Any], b: Dict[str, Any], moved: set = frozenset()) -> 
                         return "zope-kind-of-moved-interface", f"{k}: {f} {a[k].get(f)!r} vs {b[k].get(f)!r}"
                     return f + "-differs", f"{k}: {f} {a[k].get(f)!r} vs {b[k].get(f)!r}"
     return "?", "?"
+
+
+@contextlib.contextmanager
+def emulate(plain_import: bool = False, parents_first: bool = False):
+    """in-process emulation of two repairs that are NOT in the tree, used only to name the cause of a difference the
+    oracle has already found (a difference that disappears under the emulation has that cause):
+    plain_import  — `import a.b` analyses a, a.b first (what `from a.b import x` does today);
+    parents_first — getProcessedModule analyses the not yet analysed packages above a module first, outermost first"""
+    from pydoctor import model, astbuilder
+    gp = model.System.getProcessedModule
+    vi = astbuilder.ModuleVistor.visit_Import
+    U = model.ProcessingState.UNPROCESSED
+
+    def getProcessedModule(system, modname):
+        mod = system.allobjects.get(modname)
+        if mod is None:
+            try:
+                mod = system.find_object(modname)
+            except LookupError:
+                mod = None
+        if isinstance(mod, model.Module) and mod.state is U:
+            chain = []
+            par = mod.parent
+            while isinstance(par, model.Module):
+                chain.append(par)
+                par = par.parent
+            for par in reversed(chain):
+                if par.state is U:
+                    system.processModule(par)
+        return gp(system, modname)
+
+    def visit_Import(visitor, node):
+        if isinstance(visitor.builder.current, model.CanContainImportsDocumentable):
+            for al in node.names:
+                parts = al.name.split(".")
+                for k in range(1, len(parts) + 1):
+                    visitor.system.getProcessedModule(".".join(parts[:k]))
+        return vi(visitor, node)
+    if parents_first:
+        model.System.getProcessedModule = getProcessedModule
+    if plain_import:
+        astbuilder.ModuleVistor.visit_Import = visit_Import
+    try:
+        yield
+    finally:
+        model.System.getProcessedModule = gp
+        astbuilder.ModuleVistor.visit_Import = vi
+
+
+def agree_under(builder, o1, o2, hierarchy_only: bool, **emu) -> bool:
+    """do the two orders give the same canonical dump when the named repair is emulated?"""
+    dumps = []
+    for od in (o1, o2):
+        try:
+            with SchedRec() as rec, emulate(**emu):
+                s = builder(od, rec)
+            dumps.append(canon(s, hierarchy_only))
+        except Exception:
+            return False
+    return dumps[0] == dumps[1]
+
+
+def diff_items(a: Dict[str, Any], b: Dict[str, Any]) -> List[Tuple[str, str, Any, Any]]:
+    """EVERY difference between two canonical dumps: (object, field, value under a, value under b); field `present`
+    for an object documented under one order only"""
+    out: List[Tuple[str, str, Any, Any]] = []
+    for k in sorted(set(a) | set(b)):
+        if k not in a or k not in b:
+            out.append((k, "present", k in a, k in b))
+            continue
+        for f in sorted(set(a[k]) | set(b[k])):
+            if a[k].get(f) != b[k].get(f):
+                out.append((k, f, a[k].get(f), b[k].get(f)))
+    return out
+
+
+ZOPE_KIND_PAIRS = ({"INTERFACE", "CLASS"}, {"SCHEMA_FIELD", "CLASS_VARIABLE"}, {"SCHEMA_FIELD", "INSTANCE_VARIABLE"}, {"ATTRIBUTE", "CLASS_VARIABLE"})
+
+
+def item_shapes(a: Dict[str, Any], b: Dict[str, Any], src: Dict[str, str]) -> List[Tuple[Tuple[str, str, Any, Any], str]]:
+    """what KIND of difference each item is — the effects a look-up at visit time that misses its target is known
+    to have (anything else is `other`):
+    wrap      an extra ATTRIBUTE of a class one of whose documented ancestors has a member of that name
+              (`meth = deco(Base.meth)`, `self.meth = …`: a new attribute only when the base is not known)
+    zope      INTERFACE / CLASS, SCHEMA_FIELD / variable, `I = SomeInterfaceClass('I')` class / variable
+    docassign a docstring that is, under one order, the literal some module assigns with `….__doc__ = '…'`
+    typealias VARIABLE / TYPE_ALIAS (`X: mod.TypeAlias = …`)"""
+    import re
+    both = {**a, **b}
+    assigned = set()
+    for text in src.values():
+        for m in re.finditer(r"^\s*[\w.]+\.__doc__\s*=\s*(['\"])(.*?)\1\s*$", text, re.M):
+            assigned.add(m.group(2))
+
+    def shadows_inherited(k):
+        e = both[k]
+        par = e.get("parent")
+        if e.get("cls") not in ("Attribute", "ZopeInterfaceAttribute") or par not in both:
+            return False
+        nm = k[len(par) + 1:]
+        for x in (a, b):
+            for anc in ((x.get(par) or {}).get("mro_resolved") or [])[1:]:
+                if anc + "." + nm in x:
+                    return True
+        return False
+
+    def dyn_interface(k):
+        return k in a and k in b and {a[k].get("cls"), b[k].get("cls")} == {"Class", "Attribute"} and (k + " 0" in a or k + " 0" in b)
+    out = []
+    for it in diff_items(a, b):
+        k, f, x, y = it
+        shape = "other"
+        if f == "present":
+            if k.endswith(" 0") and dyn_interface(k[:-2]):
+                shape = "zope"
+            elif shadows_inherited(k):
+                shape = "wrap"
+        elif dyn_interface(k):
+            shape = "zope"
+        elif f == "kind" and {x, y} in ZOPE_KIND_PAIRS:
+            shape = "zope"
+        elif f == "kind" and {x, y} == {"VARIABLE", "TYPE_ALIAS"}:
+            shape = "typealias"
+        elif f == "doc" and (x in assigned or y in assigned):
+            shape = "docassign"
+        out.append((it, shape))
+    return out
+
+
+def stale_star_base(a: Dict[str, Any], b: Dict[str, Any], moved: set, src: Dict[str, str]) -> bool:
+    """every difference is a base class that is a moved (re-exported) object under one order and unresolved under the
+    other, where the unresolved NAME leads through a module that took the object with a star import"""
+    import re
+    star_mods = {q for q, text in src.items() if re.search(r"^from \S+ import \*", text, re.M)}
+    items = diff_items(a, b)
+    if not items or not star_mods:
+        return False
+    for k, f, x, y in items:
+        if f not in ("bases", "mro", "mro_resolved"):
+            return False
+        if f == "bases":
+            if not isinstance(x, list) or not isinstance(y, list) or len(x) != len(y):
+                return False
+            for p, q_ in zip(x, y):
+                if p != q_ and ((p is None) == (q_ is None) or (p or q_) not in moved):
+                    return False
+            for dump, bases, other in ((a, x, y), (b, y, x)):
+                if any(p is None and q_ is not None for p, q_ in zip(bases, other)):
+                    names = [n for n in (dump[k].get("mro") or []) if isinstance(n, str) and n not in dump]
+                    if not any(n.rsplit(".", 1)[0] in star_mods for n in names):
+                        return False
+    return True
+
+
+def classify(a: Dict[str, Any], b: Dict[str, Any], moved: set, src: Dict[str, str], tag: str, reexp: bool,
+             ev_a, ev_b, counterfactual, displaced: bool = False) -> Tuple[str, str]:
+    """full signature of an order dependence: the cause where it can be named (recorded event that differs between
+    the two orders + the difference disappears when the corresponding repair is emulated + every single difference
+    has a shape that cause is known to produce), the shape of the first difference otherwise.  `ev_*` =
+    (plain_unanalysed, early_children) of the two runs; `counterfactual(**emu)` re-runs the two orders."""
+    shapes = item_shapes(a, b, src) if tag != "cyclic" else []
+    kinds = {sh for _it, sh in shapes}
+    first = "%s: %s %r vs %r" % shapes[0][0] if shapes else ""
+    if ev_a[0] != ev_b[0] and shapes and kinds <= {"wrap", "zope", "docassign", "typealias"} and counterfactual(plain_import=True):
+        return "order-dependent:plain-import:target-not-analysed", first
+    if ev_a[1] != ev_b[1]:
+        its = diff_items(a, b)
+        if all(f in ("present", "bases", "mro", "mro_resolved", "parent", "docsources") for _k, f, _x, _y in its) \
+                and counterfactual(parents_first=True):
+            return "order-dependent:submodule-analysed-before-its-package", "%s: %s %r vs %r" % its[0]
+    if reexp and shapes and kinds <= {"wrap", "zope", "docassign"} and all(sh != "docassign" or it[0] in moved for it, sh in shapes):
+        sig = "attribute-wrapping-inherited-method" if "wrap" in kinds else "zope-kind-of-moved-interface" if "zope" in kinds \
+            else "docstring-assignment-to-moved-object"
+        return "order-dependent:reexport:" + sig, first
+    if tag != "cyclic" and stale_star_base(a, b, moved, src):
+        return "order-dependent:reexport:stale-star-import-of-moved-base", first
+    sig, what = diff_sig(a, b, moved, False, displaced)
+    if sig == "base-moved-onto-the-name-of-its-module":
+        tag = "reexport"
+    if sig in ("attribute-wrapping-inherited-method", "zope-kind-of-moved-interface"):
+        # the open findings of that name are the cases above, where EVERY difference has the shape; here something else differs too
+        other = [it for it, sh in shapes if sh == "other"]
+        sig, what = "objects-differ" if other and other[0][1] == "present" else (other[0][1] + "-differs" if other else sig), \
+            ("%s: %s %r vs %r" % other[0] if other else what)
+    if sig == "moved-base-unresolved":
+        tag, sig = "reexport", "bases-differs"
+    return "order-dependent:%s:%s" % (tag, sig), what
 
 
 def submodule_scenario(rng) -> List[Unit]:
@@ -612,7 +861,12 @@ def wrap_scenario(rng) -> List[Unit]:
         else:
             usersrc = ["from . import %s as _m" % (impl if src_from == "definer" else api), "from .%s import deco" % impl]
             bx = "_m.X"
-        usersrc += ["class Y(%s):" % bx, "    meth = deco(%s.meth)" % bx, "    attr = deco(%s.attr)" % bx, "    other = deco(len)"]
+        r = rng.random()
+        if r < 0.75:
+            usersrc += ["class Y(%s):" % bx, "    meth = deco(%s.meth)" % bx, "    attr = deco(%s.attr)" % bx, "    other = deco(len)"]
+        if r > 0.5:
+            # (hunter, noticed) the docstring assigned through the name the object was imported under
+            usersrc.append("%s.__doc__ = 'documented by the user module'" % bx)
     apisrc = ["from .%s import %s" % (impl, ", ".join(moved)), "__all__ = %r" % moved]
     units = [Unit(pk, True, "", None), Unit("%s.%s" % (pk, impl), False, "\n".join(implsrc) + "\n", pk),
              Unit("%s.%s" % (pk, api), False, "\n".join(apisrc) + "\n", pk),
@@ -620,6 +874,148 @@ def wrap_scenario(rng) -> List[Unit]:
     tail = units[1:]
     rng.shuffle(tail)
     return [units[0]] + tail
+
+
+def plain_body_scenario(rng) -> List[Unit]:
+    """hunter finding 1: a module reached through a PLAIN import (`import m`, `import p.m`, `import p.m as a` — which
+    does not make pydoctor analyse `m` first) and an importer whose statements mean different things depending on
+    whether `m` has been analysed: `meth = deco(m.B.meth)` in a subclass body, `self.meth2 = …` in its __init__,
+    `m.helper.__doc__ = …`, `m.B.__doc__ = …`, `LIMIT: m.Final = 3` / `Num: m.TypeAlias = …` (typing names reached
+    through the module), and the zope flavour (`class ISub(m.IBase)`, `f = m.MyField()`, `IDyn = m.MyIC('IDyn')`).
+    No cycle, no re-export; roots or modules of one package, the importer sorting before or after the imported module"""
+    Q = "'" * 3
+    inpkg = rng.random() < 0.5
+    base = rng.choice(["base", "mbase", "zbase"])
+    user = rng.choice(["user", "a_user", "zuser"])
+    q = (lambda m: "top." + m) if inpkg else (lambda m: m)
+    form = rng.choice(["import", "import", "import_as"])
+    if form == "import":
+        imp, pref = "import " + q(base), q(base)
+    else:
+        imp, pref = "import %s as _b" % q(base), "_b"
+    zope = rng.random() < 0.3
+    if zope:
+        basesrc = ["from zope.interface import Interface", "from zope.interface.interface import InterfaceClass", "from zope import schema",
+                   "class IBase(Interface):", "    def meth(a):", "        'meth doc'",
+                   "class MyIC(InterfaceClass):", "    pass", "class MyField(schema.Field):", "    pass"]
+        feats = rng.sample(["isub", "field", "idyn"], rng.randint(1, 3))
+        usersrc = [imp]
+        if "isub" in feats or "field" in feats:
+            usersrc.append("class ISub(%s):" % (pref + ".IBase" if "isub" in feats else "object"))
+            usersrc.append("    f = %s.MyField()" % pref if "field" in feats else "    pass")
+        if "idyn" in feats:
+            usersrc.append("IDyn = %s.MyIC('IDyn')" % pref)
+        others = ["from %s import IBase" % q(base), "class IOther(IBase):", "    pass"]
+    else:
+        basesrc = ["from typing import Final, TypeAlias", "class B:", "    " + Q + "doc of B" + Q, "    def meth(self):", "        'a method'",
+                   "    def meth2(self):", "        pass", "    attr = 1", "def helper():", "    pass"]
+        feats = rng.sample(["wrap", "ivar", "docfn", "doccls", "final", "alias"], rng.randint(1, 4))
+        usersrc = [imp, "def deco(f):", "    return f"]
+        if "wrap" in feats or "ivar" in feats:
+            usersrc.append("class Y(%s.B):" % pref)
+            if "wrap" in feats:
+                usersrc += ["    meth = deco(%s.B.meth)" % pref, "    other = deco(len)"]
+            if "ivar" in feats:
+                usersrc += ["    def __init__(self):", "        self.meth2 = None", "        " + Q + "set on the instance" + Q]
+        if "docfn" in feats:
+            usersrc.append("%s.helper.__doc__ = 'documented by the importer'" % pref)
+        if "doccls" in feats:
+            usersrc.append("%s.B.__doc__ = 'class documented by the importer'" % pref)
+        if "final" in feats:
+            usersrc.append("LIMIT: %s.Final = 3" % pref)
+        if "alias" in feats:
+            usersrc.append("Num: %s.TypeAlias = 'int'" % pref)
+        others = ["from %s import B" % q(base), "class Z(B):", "    pass"]
+    par = "top" if inpkg else None
+    units = [Unit(q(base), False, "\n".join(basesrc) + "\n", par), Unit(q(user), False, "\n".join(usersrc) + "\n", par)]
+    if rng.random() < 0.4:
+        units.append(Unit(q(rng.choice(["aother", "other", "zzother"])), False, "\n".join(others) + "\n", par))
+    rng.shuffle(units)
+    if inpkg:
+        units.insert(0, Unit("top", True, "", None))
+    return units
+
+
+def star_snapshot_scenario(rng) -> List[Unit]:
+    """hunter finding 2: `impl` defines C; ONE module re-exports it (`from impl import C; __all__ = ['C']`); `compat`
+    takes it with a star import (which records where the name leads AT THAT MOMENT); a client derives from
+    `compat.C`.  The re-exporter sorts before or after `compat`."""
+    inpkg = rng.random() < 0.5
+    impl = rng.choice(["impl", "_impl", "zimpl"])
+    pub = rng.choice(["api", "public", "zpub"])
+    compat = rng.choice(["compat", "bcompat"])
+    client = rng.choice(["client", "aclient", "zclient"])
+    q = (lambda m: "top." + m) if inpkg else (lambda m: m)
+    rel = inpkg and rng.random() < 0.5
+    ref = (lambda m: "." + m) if rel else q
+    implsrc = ["class C:", "    'doc of C'", "    def meth(self):", "        pass", "class D(C):", "    pass"]
+    names = rng.choice([["C"], ["C"], ["C", "D"]])
+    pubsrc = ["from %s import %s" % (ref(impl), ", ".join(names)), "__all__ = %r" % names]
+    compatsrc = ["from %s import *" % ref(impl)]
+    if rng.random() < 0.3:
+        compatsrc.append("def shim():\n    pass")
+    if not inpkg or rng.random() < 0.6:
+        clientsrc = ["from %s import C" % ref(compat), "class Sub(C):", "    pass"]
+    else:
+        # (a from-import of the module: a plain `import compat` would not analyse it — that is finding 1)
+        clientsrc = ["from %s import %s" % ("." if rel else "top", compat), "class Sub(%s.C):" % compat, "    pass"]
+    par = "top" if inpkg else None
+    units = [Unit(q(impl), False, "\n".join(implsrc) + "\n", par), Unit(q(pub), False, "\n".join(pubsrc) + "\n", par),
+             Unit(q(compat), False, "\n".join(compatsrc) + "\n", par), Unit(q(client), False, "\n".join(clientsrc) + "\n", par)]
+    rng.shuffle(units)
+    if inpkg:
+        units.insert(0, Unit("top", True, "", None))
+    return units
+
+
+def early_submodule_scenario(rng) -> List[Unit]:
+    """hunter finding 3: a sub-module is asked for (`from pkg.core import Base`) by a module that is analysed BEFORE the
+    package, so that pydoctor analyses pkg/core.py before pkg/__init__.py (Python never does); core's `from . import
+    util` then pulls pkg/__init__.py in while core is half visited, and the package's re-export / star import of
+    core's classes finds nothing.  Two layouts: a second root, or a sibling module of a sub-package"""
+    if rng.random() < 0.5:
+        pkg = rng.choice(["pkg", "lib"])
+        app = rng.choice(["app", "aapp", "zapp"])
+        init = ["from .core import Base", "__all__ = ['Base', 'Derived']", "class Derived(Base):", "    pass"] if rng.random() < 0.6 else \
+               ["from .core import *", "class Derived(Base):", "    pass"]
+        core = [rng.choice(["from . import util", "from %s import util" % pkg, "from .util import helper"]), "class Base:", "    'doc of Base'"]
+        pk = [Unit(pkg, True, "\n".join(init) + "\n", None), Unit(pkg + ".core", False, "\n".join(core) + "\n", pkg),
+              Unit(pkg + ".util", False, "def helper():\n    pass\n", pkg)]
+        appu = Unit(app, False, "from %s.core import Base\nclass App(Base):\n    pass\n" % pkg, None)
+        return ([appu] + pk) if rng.random() < 0.5 else (pk + [appu])
+    app = rng.choice(["app", "zapp"])
+    init = ["from .base import *", "class Derived(Base):", "    pass"] if rng.random() < 0.6 else \
+           ["from .base import Base", "__all__ = ['Base', 'Derived']", "class Derived(Base):", "    pass"]
+    base = [rng.choice(["from . import util", "from .util import helper"]), "class Base:", "    'doc of Base'"]
+    core = [Unit("top.core", True, "\n".join(init) + "\n", "top"), Unit("top.core.base", False, "\n".join(base) + "\n", "top.core"),
+            Unit("top.core.util", False, "def helper():\n    pass\n", "top.core")]
+    appu = Unit("top." + app, False, "from .core.base import Base\nclass App(Base):\n    pass\n", "top")
+    return [Unit("top", True, "", None)] + (([appu] + core) if rng.random() < 0.5 else (core + [appu]))
+
+
+def subpackage_reexport_scenario(rng) -> List[Unit]:
+    """hunter finding 4 (repaired by 2ad6fa5): a package publishes a SUB-PACKAGE of another package through __all__;
+    the sub-package's modules use relative imports that leave the sub-package (`from ..helpers import H`), which
+    must be read where the module is written, not where it is moved to; re-exporter root before / after"""
+    roots = rng.random() < 0.5
+    api = rng.choice(["api", "xapi", "aapi"])
+    if roots:
+        impl, apiq, par = "impl", api, None
+        imp = "from impl import sub"
+    else:
+        impl, apiq, par = "top.impl", "top." + api, "top"
+        imp = rng.choice(["from ..impl import sub", "from top.impl import sub"])
+    alias = rng.choice(["sub", "sub", "kit"])
+    if alias != "sub":
+        imp += " as " + alias
+    leaf = [rng.choice(["from ..helpers import H", "from .. import helpers\nH = helpers.H", "from %s.helpers import H" % impl]), "class L(H):", "    pass"]
+    ip = [Unit(impl, True, "", par), Unit(impl + ".helpers", False, "class H:\n    def hook(self):\n        'hook doc'\n", impl),
+          Unit(impl + ".sub", True, rng.choice(["", "from .leaf import L\n"]), impl), Unit(impl + ".sub.leaf", False, "\n".join(leaf) + "\n", impl + ".sub")]
+    if rng.random() < 0.4:
+        ip.append(Unit(impl + ".sub.more", False, "from . import leaf\nfrom ..helpers import H as HH\nclass M(leaf.L, HH):\n    pass\n", impl + ".sub"))
+    ap = [Unit(apiq, True, imp + "\n__all__ = [%r]\n" % alias, par)]
+    units = [] if roots else [Unit("top", True, "", None)]
+    return units + ((ip + ap) if rng.random() < 0.5 else (ap + ip))
 
 
 def run(ctx: Ctx) -> None:
@@ -645,6 +1041,18 @@ def run(ctx: Ctx) -> None:
         elif i % 16 in (10, 12):
             units = wrap_scenario(ctx.rng)
             ctx.count("projects:base-known-at-visit-scenario")
+        elif i % 16 in (0, 8):
+            units = plain_body_scenario(ctx.rng)
+            ctx.count("projects:plain-import-body-scenario")
+        elif i % 32 == 4:
+            units = star_snapshot_scenario(ctx.rng)
+            ctx.count("projects:star-snapshot-scenario")
+        elif i % 32 == 20:
+            units = early_submodule_scenario(ctx.rng)
+            ctx.count("projects:submodule-before-package-scenario")
+        elif i % 32 in (14, 30):
+            units = subpackage_reexport_scenario(ctx.rng)
+            ctx.count("projects:subpackage-reexport-scenario")
         else:
             g = Gen(ctx.rng, Knobs(max_modules=5 if ctx.quick else 7, reexport=0.3, star=0.25, single_reexporter=True))
             units = g.project()
@@ -669,6 +1077,13 @@ def run(ctx: Ctx) -> None:
         parses = ["parseError%d" % k not in rec0.log for k in range(len(units))]
         modtoks = " ".join("%s:%s" % ("p" if parses[k] else "x", ",".join(map(str, imports[k])) or "-") for k in range(len(units)))
         cyc = has_cycle(units, imports)
+        # for the documented objects a request for a package ABOVE the importer (`from . import util` asks for the
+        # package first) is not an import cycle: Python has always run that package's __init__ before the module, whatever
+        # is imported first, so nothing about the result depends on the entry point
+        py_imports = {k: [t for t in v if not (units[k].qname + ".").startswith(units[t].qname + ".")] for k, v in imports.items()}
+        pycyc = has_cycle(units, py_imports)
+        if cyc and not pycyc:
+            ctx.count("projects:cycle-only-through-own-package(full comparison)")
         ords = valid_orders(units, ctx.rng, limit)
         ref = None
         inh_cyc = False
@@ -716,7 +1131,7 @@ def run(ctx: Ctx) -> None:
                 if rec.log.count("start%d" % k) != 1:
                     ctx.fail("module-not-processed-once", {"units": src, "order": od}, f"{m.fullName()} entered {rec.log.count('start%d' % k)} times")
             # direct oracle: documented objects independent of the order
-            if cyc and star_in_cycle(units, imports):
+            if pycyc and star_in_cycle(units, py_imports):
                 ctx.count("oracle-skipped:star-import-inside-cycle")
                 continue
             if inh_cyc or inheritance_cycle(s):
@@ -728,19 +1143,18 @@ def run(ctx: Ctx) -> None:
                     pending = [pf for pf in pending if pf[0] != i]
                 ctx.count("oracle-skipped:cyclic-inheritance")
                 continue
-            c = canon(s, hierarchy_only=cyc)
-            mv = moved_origins(s) if cyc else {o.fullName() for o in s.allobjects.values()
-                                               if getattr(o, "_verif_orig", o.fullName()) != o.fullName() and " " not in o.name}
+            c = canon(s, hierarchy_only=pycyc)
+            mv = moved_origins(s) if pycyc else {o.fullName() for o in s.allobjects.values()
+                                                 if getattr(o, "_verif_orig", o.fullName()) != o.fullName() and " " not in o.name}
+            ev = (rec.plain_unanalysed, rec.early_children)
             if ref is None:
-                ref = (od, c, mv)
+                ref = (od, c, mv, ev)
             elif c != ref[1]:
-                sig, what = diff_sig(ref[1], c, mv | ref[2])
-                tag = "cyclic" if cyc else ("reexport" if reexp else "plain")
-                if sig == "moved-base-unresolved":
-                    tag = "reexport"
-                    sig = "bases-differs"
-                pending.append((i, "order-dependent:%s:%s" % (tag, sig), {"units": src, "order": od, "reference_order": ref[0]},
-                                f"orders {ref[0]} and {od}: {what}"))
+                tag = "cyclic" if pycyc else ("reexport" if reexp else "plain")
+                full, what = classify(ref[1], c, mv | ref[2], src, tag, reexp, ref[3], ev,
+                                      lambda **emu: agree_under(lambda o, r: build(units, o, r)[0], ref[0], od, pycyc, **emu),
+                                      displaced=rec.module_displaced or rec0.module_displaced)
+                pending.append((i, full, {"units": src, "order": od, "reference_order": ref[0]}, f"orders {ref[0]} and {od}: {what}"))
         if any(len(v) > 1 for v in dests.values()) and any(pf[0] == i for pf in pending):
             # some object was moved to two different modules (over all orders): it has more than one re-exporter
             # (possibly through a chain of re-exports), which the property leaves out
@@ -755,9 +1169,11 @@ def run(ctx: Ctx) -> None:
             norders_here = 3
         else:
             norders_here = norders
+        from pydoctor import model
         try:
-            with SchedRec():
+            with SchedRec() as rec0r:
                 s0, names0 = build_real(paths, ctx.rng, False)
+            ev0 = (rec0r.plain_unanalysed, rec0r.early_children)
         except Exception as e:
             ctx.fail("real-package-crash:" + type(e).__name__, {"package": label, "order": None}, f"{label}: {type(e).__name__}: {e}")
             continue
@@ -771,7 +1187,7 @@ def run(ctx: Ctx) -> None:
         seen = {tuple(names0)}
         for k in range(norders_here):
             try:
-                with SchedRec():
+                with SchedRec() as rec:
                     s, names = build_real(paths, ctx.rng, True)
             except Exception as e:
                 ctx.fail("real-package-crash:" + type(e).__name__, {"package": label, "order": names0}, f"{label}: {type(e).__name__}: {e}")
@@ -786,9 +1202,20 @@ def run(ctx: Ctx) -> None:
                 break
             c = canon(s, hierarchy_only=cyc)
             if c != ref:
-                sig, what = diff_sig(ref, c, moved_origins(s) | moved_origins(s0))
-                # a base imported from the defining module of a re-exported (moved) class: the open finding, seen on a real package
-                full = "order-dependent:reexport:bases-differs" if sig == "moved-base-unresolved" else "order-dependent:real:%s:%s" % (label, sig)
+                srcs = {}
+                for m in s.allobjects.values():
+                    if isinstance(m, model.Module) and m.source_path is not None and str(m.source_path).endswith(".py"):
+                        try:
+                            srcs[m.fullName()] = Path(m.source_path).read_text(errors="replace")
+                        except OSError:
+                            pass
+                mvd = (moved_origins(s) | moved_origins(s0)) if cyc else \
+                    {o.fullName() for sy in (s, s0) for o in sy.allobjects.values()
+                     if getattr(o, "_verif_orig", o.fullName()) != o.fullName() and " " not in o.name}
+                full, what = classify(ref, c, mvd, srcs, "cyclic" if cyc else "real:" + label, True, ev0, (rec.plain_unanalysed, rec.early_children),
+                                      lambda **emu: agree_under(lambda o, r: build_real(paths, ctx.rng, False, o)[0], names0, names, cyc, **emu))
+                if full.startswith("order-dependent:cyclic:"):
+                    full = "order-dependent:real:%s:%s" % (label, full[len("order-dependent:"):])
                 ctx.fail(full, {"package": label, "paths": [str(p) for p in paths], "order": names, "reference_order": names0},
                          f"{label}: default order vs {names[:8]}...: {what}")
                 break
